@@ -119,6 +119,15 @@ def units(tier):
         # of the listing under test (small truncations only: the space is a product of two cursors)
         for k in ([2] if tier == 'quick' else sorted(set([2, min(n, 3)]))):
             us.append((key, k, 0, 1, 'by'))
+        # listings in which a LATER result set does not print a table the first one prints (derived copies: the file
+        # cut to min(N, 3) result times with one table block of the second result set deleted - thorough: also of
+        # the last one): a table that is not printed must not keep the values of whichever result set was read before
+        kk = min(n, 3)
+        blocks = listkit.removable_table_blocks(path)
+        fulls = [b for b in blocks][:kk]
+        for j in ([1] if tier == 'quick' else sorted(set([1, kk - 1]))):
+            for bi in range(len(fulls[j]) if j < len(fulls) else 0):
+                us.append((key, kk, 0, 1, 'del:%d:%d' % (j, bi)))
     return us
 
 
@@ -148,13 +157,21 @@ class Ctx(object):
         self.key, self.k, self.mode = key, k, mode
         self.src = listkit.path_of(key)
         self.path = listkit.truncated_copy(self.src, k, tag='c07')
+        self.sig_suffix = ''
+        if mode.startswith('del:'):
+            j, bi = [int(x) for x in mode.split(':')[1:]]
+            block = listkit.removable_table_blocks(self.src)[j][bi]
+            self.trunc_path = self.path
+            self.path = listkit.copy_without_block(self.path, block, 'c07del')
+            self.removed = (j, block[0])
+            self.sig_suffix = '|table-not-printed-in-a-later-result-set'
         sc = listkit.scan_of(self.path)
         self.scan = sc
         full = sc.full
         self.model = navmodel.NavModel([s.time for s in full], [s.step for s in full])
         self.refs = None
         self.sim = None
-        self.seed_name = '%s@%d%s' % (key, k, '+by' if mode == 'by' else '')
+        self.seed_name = '%s@%d%s' % (key, k, '+by' if mode == 'by' else ('+' + mode if mode.startswith('del:') else ''))
         self.model_cache = {}
         self.bystanders = None
         self.force_genuine = False
@@ -216,9 +233,14 @@ class Ctx(object):
     def alphabet(self, tablenames):
         if self.mode == 'by':
             return self.alphabet_with_bystanders(tablenames)
+        if self.mode.startswith('del:'):
+            # reduced cursor alphabet; histories only of the first table (always printed): what history() does with a
+            # table that a result set does not print is C06's business, not a navigation question
+            return [op for op in self.alphabet_with_bystanders(tablenames, second_objects=False)
+                    if not (op[0] == 'history' and op[1] != 'single')]
         return self.full_alphabet(tablenames)
 
-    def alphabet_with_bystanders(self, tablenames):
+    def alphabet_with_bystanders(self, tablenames, second_objects=True):
         """Reduced cursor alphabet for the listing under test, plus the second-object actions."""
         m = self.model
         ops = [['first'], ['last'], ['next'], ['prev']]
@@ -230,9 +252,10 @@ class Ctx(object):
         if len(tablenames) >= 2:
             ops.append(['history', 'all'])
         ops.append(['look', 'rows'])
-        for label in sorted(self.prepare_bystanders()):
-            ops.append(['bystander', 'open', label])
-        ops.append(['bystander', 'next'])
+        if second_objects:
+            for label in sorted(self.prepare_bystanders()):
+                ops.append(['bystander', 'open', label])
+            ops.append(['bystander', 'next'])
         return ops
 
     def full_alphabet(self, tablenames):
@@ -335,6 +358,13 @@ def accepted(ctx, op, i0):
 
 
 def apply_op(st, op, judge=True):
+    """apply_op_plain with the signature suffix of the search's input class (derived listings)."""
+    viol = apply_op_plain(st, op, judge)
+    sfx = st.ctx.sig_suffix
+    return [(sig + sfx, what) for sig, what in viol] if (sfx and viol) else viol
+
+
+def apply_op_plain(st, op, judge=True):
     """Apply one action to the real reader and (judge=True) judge the transition.  -> [(sig, what)]
     judge=False is used when a history that was already judged step by step is replayed to restore a state;
     exceptions and non-termination are still reported."""
@@ -783,7 +813,10 @@ def _run_unit(ctx, unit, tier, rec):
     seen, closed = search(rec, ctx, ops, shard, nshards, fresh)
     while live:
         close_state(live.pop())
-    if mode == 'by':
+    if mode.startswith('del:'):
+        rec.count('searches_on_listings_with_a_table_not_printed_in_a_later_result_set', 1)
+        rec.count('states_in_those_searches', len(seen))
+    elif mode == 'by':
         rec.count('searches_with_a_second_object', 1)
         rec.count('states_in_searches_with_a_second_object', len(seen))
         rec.count('second_object_kinds', len(ctx.prepare_bystanders()))
@@ -838,5 +871,8 @@ def replay(case):
     mode = 'main'
     if k.endswith('+by'):
         k, mode = k[:-3], 'by'
+    elif '+del:' in k:
+        k, _, m = k.partition('+')
+        mode = m
     ctx = Ctx(key, int(k), mode)
     return _run_case(ctx, [list(op) for op in case['ops']])
